@@ -8,6 +8,7 @@ import (
 	"io/fs"
 	"math/rand/v2"
 	"os"
+	"path/filepath"
 	"sort"
 	"strings"
 	"testing"
@@ -39,7 +40,9 @@ func genShortHistory(r *rand.Rand, rs int) []Op {
 	}
 	n := 1 + r.IntN(3)
 	for i := 0; i < n; i++ {
-		switch r.IntN(16) {
+		switch r.IntN(18) {
+		case 16, 17: // the instance is opened again, with its index (N=0) or with the index lost (N=1: rebuilt by replaying the tape)
+			ops = append(ops, Op{K: "reopen", N: r.IntN(2)})
 		case 0:
 			ops = append(ops, Op{K: "mkdir", P: pick(), M: 0o755})
 		case 1:
@@ -232,9 +235,11 @@ func runFaultedChecked(t *testing.T, c *Case, st *Stats, relax Relax, faults []F
 		}
 		defer w.Close()
 		stk, err := w.Open(OpenOpts{})
-		if stk != nil {
-			defer stk.Close()
-		}
+		defer func() {
+			if stk != nil {
+				stk.Close()
+			}
+		}()
 		if err != nil {
 			hv = &Violation{Prop: c.Prop, Oracle: "open", Detail: err.Error()}
 			finished = true
@@ -244,8 +249,27 @@ func runFaultedChecked(t *testing.T, c *Case, st *Stats, relax Relax, faults []F
 		ex := NewExec(stk.FS, s)
 		w.Dev.ResetCounts()
 		w.Dev.SetPlan(faults)
+		reopens := 0
 		for _, op := range c.Ops {
 			switch op.K {
+			case "reopen":
+				// Initialize is a call like any other: it returns and leaves the drive free, also
+				// when the replay of the tape into a lost index fails part-way. Whatever it
+				// returned, the calls after it are made on the new instance
+				ex.CloseAll()
+				stk.Close()
+				oo := OpenOpts{}
+				if op.N == 1 {
+					reopens++
+					oo.Index = filepath.Join(w.Dir, fmt.Sprintf("reopen%d.sqlite", reopens))
+				}
+				nst, _ := w.Open(oo)
+				if nst == nil {
+					hv = &Violation{Prop: c.Prop, Oracle: "harness", Detail: "reopen: no stack"}
+					return
+				}
+				stk = nst
+				ex = NewExec(stk.FS, s)
 			case "archive":
 				faultyArchive(stk, op)
 			case "restore":
